@@ -52,7 +52,7 @@ func Generate(genseed uint64, stream string, thorough bool) *Case {
 			break
 		}
 	}
-	if stream != "twin" && stream != "mount" && r.Chance(1, 4) {
+	if stream != "twin" && stream != "mount" && stream != "sched" && r.Chance(1, 4) {
 		addBlobTwin(r, g)
 	}
 	c := &Case{Stream: stream, Graph: g.Encode(), MapRoot: -1, FailNode: -1, GenSeed: genseed, Seed: r.U64(), Thorough: thorough}
@@ -186,6 +186,23 @@ func Generate(genseed uint64, stream string, thorough bool) *Case {
 			if len(ids) > 0 {
 				c.FailNode = common.Pick(r, ids)
 				c.FailCb = common.Pick(r, []string{"mountfrom", "mounted", "pre", "post"})
+			}
+		}
+	case "sched":
+		// controlled schedules (testing/synctest): contention matters, so small K
+		c.Sched = true
+		c.K = common.Pick(r, []int{1, 2, 2, 3, 3, 0})
+		c.Src = common.Pick(r, []string{"mem", "mem", "oci"})
+		c.Dst = common.Pick(r, []string{"mem", "mem", "oci"})
+		if r.Chance(1, 4) {
+			c.Mount = true
+			c.MapRoot, c.Platform = -1, ""
+			if !g.Nodes[c.Root].IsManifest() {
+				if len(manifests) > 0 {
+					c.Root = common.Pick(r, manifests)
+				} else {
+					c.Mount = false
+				}
 			}
 		}
 	case "cbfail":
